@@ -26,6 +26,11 @@ def main(argv=None):
         print("MACHINERY-ERROR: no driver for %s (%s)" % (prop, e))
         return 2
     ctx = Ctx(prop, a.tier, a.seed, mod.LEVEL)
+    import logging
+    import warnings
+    logging.getLogger("mokapot").setLevel(logging.ERROR)
+    logging.getLogger().setLevel(logging.ERROR)
+    warnings.filterwarnings("ignore")
     try:
         import mokapot
         if not os.path.abspath(mokapot.__file__).startswith("/repo/"):
